@@ -356,7 +356,7 @@ fn evaluate(m: &Model) -> Result<Eval, Failure> {
         Err(Structural::Truncated { row, col, what, ty }) => {
             return Err(Failure {
                 sev: 0,
-                key: format!("ref.stream_truncated|{mode}"),
+                key: "ref.stream_truncated".into(),
                 msg: format!(
                     "compressed stream ({} bytes) ends while reading the {what} (type {}) at row {row} column {col}; stream: {}",
                     cd.len(),
@@ -369,7 +369,7 @@ fn evaluate(m: &Model) -> Result<Eval, Failure> {
         Err(Structural::Crosses { row, col, ty, n }) => {
             return Err(Failure {
                 sev: 0,
-                key: format!("ref.run_crosses_row_end|run={}|{mode}", RUN_NAMES[ty as usize]),
+                key: format!("ref.run_crosses_row_end|run={}", RUN_NAMES[ty as usize]),
                 msg: format!("row {row}: a {} run of {n} cells starts at column {col} of a {w}-cell row; stream: {}", RUN_NAMES[ty as usize], hex(cd)),
                 row: Some(row),
             });
@@ -383,7 +383,7 @@ fn evaluate(m: &Model) -> Result<Eval, Failure> {
     if !tail.is_empty() && !is_sauce_tail(tail) {
         fails.push(Failure {
             sev: 1,
-            key: format!("ref.trailing_bytes|sauce={}|{mode}", m.sauce),
+            key: format!("ref.trailing_bytes|sauce={}", m.sauce),
             msg: format!("{} bytes follow the last row and are not a SAUCE record: {}", tail.len(), hex(tail)),
             row: None,
         });
@@ -419,7 +419,12 @@ fn evaluate(m: &Model) -> Result<Eval, Failure> {
             let row_hex: Vec<String> = (0..w.min(48)).map(|k| format!("{:02x}{:02x}", ud[2 * (y * w + k)], ud[2 * (y * w + k) + 1])).collect();
             fails.push(Failure {
                 sev,
-                key: format!("ref.cell_mismatch.{what}|run={}|{mode}", RUN_NAMES[dec.by[i] as usize]),
+                // the character byte has the same meaning in both modes; attribute bit 3 has not
+                key: if what == "char" {
+                    format!("ref.cell_mismatch.char|run={}", RUN_NAMES[dec.by[i] as usize])
+                } else {
+                    format!("ref.cell_mismatch.{what}|run={}|{mode}", RUN_NAMES[dec.by[i] as usize])
+                },
                 msg: format!(
                     "row {y} column {x}: compressed stream decodes to char {:#04x} attr {:#04x}, uncompressed encoding has char {:#04x} attr {:#04x} (cell produced by a '{}' run); uncompressed row (char,attr): {}; runs of the row: {}",
                     got.0,
